@@ -42,6 +42,11 @@ class Workload:
     real: list = field(default_factory=list)
     stub: list = field(default_factory=list)
     note: str = ""
+    leak_mb: float = 0.0  # memory a run leaves behind in its worker (numba LLVM modules of per-call jitted closures), measured
+    override_cap: Optional[int] = None  # upper bound for --runs overrides (determinism self-test) of expensive workloads
+
+
+LEAK_BUDGET_MB_PER_WORKER = 700.0
 
 
 class RunTimeout(BaseException):
@@ -62,20 +67,23 @@ def execute(wl: Workload, ch: Chooser, keep_events: bool = True) -> dict:
     tr = Trace()
     envseam.pin()
     out: dict = {"violation": None, "harness_error": None}
-    signal.signal(signal.SIGALRM, _alarm)
-    signal.setitimer(signal.ITIMER_REAL, wl.run_timeout)
+    # watchdog in *CPU* seconds of this process (ITIMER_PROF): a run that hangs in a loop is cut, while a run that is
+    # merely starved by other jobs on the machine is not (the real-time variant produced spurious harness errors at a
+    # load average of 30 on 16 cores); a batch-level real-time guard remains in run_check (fu.result timeout)
+    signal.signal(signal.SIGPROF, _alarm)
+    signal.setitimer(signal.ITIMER_PROF, wl.run_timeout)
     try:
         wl.run(ch, tr)
     except Violation as v:
         out["violation"] = {"inv": v.inv, "msg": v.msg, "sig": v.sig, "prop": v.prop}
     except RunTimeout:
-        out["harness_error"] = f"run exceeded {wl.run_timeout}s of real time at\n{_alarm.where}"
+        out["harness_error"] = f"run exceeded {wl.run_timeout}s of CPU time at\n{_alarm.where}"
     except KeyboardInterrupt:
         raise
     except BaseException:  # noqa: BLE001  harness error, reported apart from VIOLATION
         out["harness_error"] = traceback.format_exc(limit=12)
     finally:
-        signal.setitimer(signal.ITIMER_REAL, 0)
+        signal.setitimer(signal.ITIMER_PROF, 0)
         ch.close_spans()
         envseam.unpin()
     out["trace"] = tr
@@ -294,6 +302,8 @@ def run_check(mod, tier: str, seed: int, workers: int, runs_override: Optional[i
         if only and wl.name != only:
             continue
         n = wl.runs.get(tier, 0) if runs_override is None else runs_override
+        if runs_override is not None and wl.override_cap is not None:
+            n = min(n, wl.override_cap)
         per_wl_runs[wl.name] = n
         first = True
         for s in range(0, n, wl.chunk):
@@ -312,19 +322,37 @@ def run_check(mod, tier: str, seed: int, workers: int, runs_override: Optional[i
     pool_error = None
     reduced = False
     ctx = get_context("fork")
-    with ProcessPoolExecutor(max_workers=workers, mp_context=ctx) as ex:
-        futs = [ex.submit(_run_chunk, t) for t in tasks]
-        try:
-            for k, fu in enumerate(futs):
-                if wall_budget is not None and (_perf() - t_start) > wall_budget:
-                    if fu.cancel():
-                        reduced = True
-                        continue
-                results[k] = fu.result(timeout=3600)
-        except BrokenProcessPool as e:  # worker died
-            pool_error = f"worker process died: {e!r}"
-        except Exception as e:  # noqa: BLE001
-            pool_error = f"pool failure: {e!r}\n{traceback.format_exc(limit=5)}"
+    # Worker recycling: porepy jit-compiles a few closures on every call (exporter, block inversion, point sorting), and
+    # numba never frees those LLVM modules (~2 MB per exporter run, measured).  A workload states its measured leak per run (leak_mb): the
+    # batch is then executed by successive pool generations of bounded total leak, each forked afresh from the warm
+    # parent, so the memory of a worker stays bounded however long the tier is.  Results do not depend on the split.
+    generations: list = [[]]
+    acc = 0.0
+    for k, t in enumerate(tasks):
+        generations[-1].append(k)
+        acc += (t[3] - t[2]) * mod.WORKLOADS[t[0]].leak_mb
+        if acc >= LEAK_BUDGET_MB_PER_WORKER * workers and k + 1 < len(tasks):
+            generations.append([])
+            acc = 0.0
+    for gen in generations:
+        if pool_error or not gen:
+            break
+        with ProcessPoolExecutor(max_workers=workers, mp_context=ctx) as ex:
+            futs = [(k, ex.submit(_run_chunk, tasks[k])) for k in gen]
+            try:
+                for k, fu in futs:
+                    if wall_budget is not None and (_perf() - t_start) > wall_budget:
+                        if fu.cancel():
+                            reduced = True
+                            continue
+                    results[k] = fu.result(timeout=3600)
+            except BrokenProcessPool as e:  # worker died
+                pool_error = f"worker process died: {e!r}"
+            except Exception as e:  # noqa: BLE001
+                pool_error = f"pool failure: {e!r}\n{traceback.format_exc(limit=5)}"
+        if wall_budget is not None and (_perf() - t_start) > wall_budget and gen is not generations[-1]:
+            reduced = True
+            break
 
     # ---- deterministic aggregation in task order ------------------------------------
     tot = {
